@@ -384,11 +384,24 @@ func TestVerifC04Admin(t *testing.T) {
 				}
 			}
 		}
+		var aimUsers []c04User
 		mk := func(l string, route c04Route, kind string, forcePath string) {
 			lab := fmt.Sprintf("r%d.", n)
 			n++
 			r := c04Req{listener: l, method: route.method, path: c04Concrete(route.path), query: url.Values{}}
-			if l == "playback" && len(pbUsers) > 0 && rapid.IntRange(0, 3).Draw(t, lab+"aimPlaybackRow") > 0 {
+			var aimRows []c04User // rows of the previous table that granted this listener's action
+			for _, u := range aimUsers {
+				for _, pm := range u.perms {
+					if pm.action == c04Action[l] {
+						aimRows = append(aimRows, u)
+						break
+					}
+				}
+			}
+			if len(aimRows) > 0 && rapid.IntRange(0, 3).Draw(t, lab+"aimPreviousTable") > 0 {
+				// after a reload: clients that the PREVIOUS table admitted here (the expectation is always the table in force)
+				r.cl = c04GenClient(t, lab, aimRows)
+			} else if l == "playback" && len(pbUsers) > 0 && rapid.IntRange(0, 3).Draw(t, lab+"aimPlaybackRow") > 0 {
 				r.cl = c04GenClient(t, lab, pbUsers)
 			} else {
 				r.cl = c04GenClient(t, lab, w.users)
@@ -598,6 +611,71 @@ func TestVerifC04Admin(t *testing.T) {
 				// let the Core finish before the next call (a request caught by that restart is not this property's business)
 				core.Barrier()
 				tr.CloseIdleConnections() // the listener may have been replaced: do not reuse its connections
+			}
+		}
+
+		// ---- phase 3: the user table is replaced by a hot reload of the configuration file; every listener must then
+		// decide with the NEW table (round-3 seeded change C04-s3: pprof kept the authentication manager it was created with)
+		if !restarted && rapid.IntRange(0, 2).Draw(t, "authReload") > 0 {
+			users2 := c04GenUsers(t)
+			orig, err2 := os.ReadFile(core.ConfPath)
+			oldBlock, newBlock := c04UsersYAML(w.users), c04UsersYAML(users2)
+			if err2 != nil || !strings.Contains(string(orig), oldBlock) {
+				fmt.Printf("VERIF-INCONCLUSIVE: cannot rewrite the user table in %s: %v\n", core.ConfPath, err2)
+				t.Fatalf("VERIF-INCONCLUSIVE: harness: user table not found in the configuration file")
+			}
+			// half of the reloads also change a setting that makes the Core create a new authentication manager
+			// (otherwise the user table is replaced inside the existing one)
+			if rapid.Bool().Draw(t, "newAuthManager") {
+				newBlock += "authJWTIssuer: c04-reload\n"
+				classes["auth-reload-new-manager"] = true
+			}
+			core.Barrier()
+			confBefore := core.Core.conf
+			if err2 = os.WriteFile(core.ConfPath, []byte(strings.Replace(string(orig), oldBlock, newBlock, 1)), 0o644); err2 != nil {
+				t.Fatalf("VERIF-INCONCLUSIVE: harness: %v", err2)
+			}
+			applied := newBlock == oldBlock
+			for deadline := time.Now().Add(20 * time.Second); !applied && time.Now().Before(deadline); {
+				time.Sleep(150 * time.Millisecond)
+				core.Barrier()
+				applied = core.Core.conf != confBefore
+			}
+			if !applied {
+				// the reload was not observed (watcher delayed on a busy machine): nothing to judge
+				classes["auth-reload-not-observed"] = true
+			} else {
+				classes["auth-reload"] = true
+				tr.CloseIdleConnections() // listeners were re-created
+				aimUsers = w.users
+				w.users = users2
+				head += " -> reload users=" + c04DescUsers(users2)
+				first := len(reqs)
+				for _, l := range []string{"pprof", "metrics", "playback", "api", "pprof", "metrics", "pprof", "metrics", "api"} {
+					var gets []c04Route
+					for _, route := range tables[l] {
+						if route.method == http.MethodGet {
+							gets = append(gets, route)
+						}
+					}
+					if len(gets) == 0 {
+						continue
+					}
+					mk(l, rapid.SampledFrom(gets).Draw(t, "p3."+l+".route"), "route", "")
+				}
+				for _, r := range reqs[first:] {
+					if r.mutating {
+						continue
+					}
+					var o c04Res
+					for try := 0; try < 20; try++ { // a listener that is being re-created refuses connections for a moment
+						if o = w.do(r); o.err == nil {
+							break
+						}
+						time.Sleep(100 * time.Millisecond)
+					}
+					check(r, o)
+				}
 			}
 		}
 
